@@ -20,9 +20,12 @@ def _at_exit():
     # lines written to fd 2 when the interpreter shuts down - in a layer
     # subprocess that is *after* its report (atexit handlers, helper
     # processes that inherited the descriptor, shutdown noise)
-    for _line in _spec.get('env', {}).get('fd2_at_exit', ()):
+    _lines = list(_spec.get('env', {}).get('fd2_at_exit', ()))
+    for _k, _line in enumerate(_lines):
         if _role == 'child':
-            os.write(2, (_line + '\n').encode('utf-8', 'surrogateescape'))
+            # fd2_at_exit_nonl: the very last line has no line end
+            _end = '' if (_spec['env'].get('fd2_at_exit_nonl') and _k == len(_lines) - 1) else '\n'
+            os.write(2, (_line + _end).encode('utf-8', 'surrogateescape'))
     _log.emit('ProcExit')
 
 
